@@ -362,6 +362,29 @@ def extract_unit(repo, unit_dir, out_path, variant=None):
         for ha, hb, h in hspans:
             segs.replace(ha - a, hb - a, '', 'rewrite', 'R1 hoisted %s %s' % (h['kind'], h['name']))
             log.append({'rule': 'R1', 'item': it['name'], 'hoisted': '%s %s' % (h['kind'], h['name'])})
+        # R15: alpha-renaming of ONE local variable to the name the spliced contracts use.  The binding is found by a regex with
+        # one group; refused (lost anchor) if the canonical name is already in use or the old name occurs in a field position.
+        for ar in it.get('alpha_rename', []):
+            text = segs.text()
+            m2 = rl.code_mask(text)
+            hits = [mm for mm in re.finditer(ar['regex'], text) if m2[mm.start()]]
+            if len(hits) != 1:
+                continue   # the binding is not there in this form: the later anchors decide
+            x = hits[0].group(1)
+            to = ar['to']
+            if x == to:
+                continue
+            occ = [mm for mm in re.finditer(r'\b%s\b' % re.escape(x), text) if m2[mm.start()]]
+            if any(m2[mm.start()] for mm in re.finditer(r'\b%s\b' % re.escape(to), text)):
+                raise LostAnchor('R15: cannot rename local %s to %s in %s: the name is in use' % (x, to, it['name']))
+            for mm in occ:
+                before = text[:mm.start()].rstrip()[-1:]
+                after = text[mm.end():].lstrip()
+                if before == '.' or (after.startswith(':') and not after.startswith('::')) or before == '{' or after.startswith('}') and before == ',':
+                    raise LostAnchor('R15: local %s occurs in a field position in %s' % (x, it['name']))
+            for mm in reversed(occ):
+                segs.replace(mm.start(), mm.end(), to, 'rewrite', 'R15 alpha-renaming of a local (%s -> %s)' % (x, to))
+            log.append({'rule': 'R15 alpha-renaming of one local variable to the name the contracts use', 'item': it['name'], 'from': x, 'to': to, 'occurrences': len(occ)})
         # R8: tail abstraction -- keep the function up to and including an anchor line, replace the rest of the body
         ta = it.get('tail_after')
         if ta:
